@@ -98,3 +98,42 @@ func replayCounterexample(prop string, r *Result, rp map[string]interface{}, ver
 	rp["replay"] = "the oracle found no failing input near the model (or no oracle exists for this function)"
 	return false
 }
+
+// runBounded runs a bounded stand-in (TestVerifBounded of the package's replay file) on the real code.
+func runBounded(b BoundedCheck, tier string, verifDir string) (ok bool, summary string) {
+	bound := b.Quick
+	if tier == "thorough" {
+		bound = b.Thorough
+	}
+	src, err := os.ReadFile(filepath.Join(verifDir, "replay", b.Pkg+".go.txt"))
+	if err != nil {
+		return false, "no replay file for package " + b.Pkg
+	}
+	common, _ := os.ReadFile(filepath.Join(verifDir, "replay", "common.go.txt"))
+	tmp, err := os.MkdirTemp("", "govc-bounded-")
+	if err != nil {
+		return false, err.Error()
+	}
+	defer os.RemoveAll(tmp)
+	testFile := filepath.Join(tmp, "zz_verif_replay_test.go")
+	os.WriteFile(testFile, append(append(src, '\n'), common...), 0o644)
+	target := filepath.Join(optRepo, b.Pkg, "zz_verif_replay_test.go")
+	ov, _ := json.Marshal(map[string]interface{}{"Replace": map[string]string{target: testFile}})
+	ovFile := filepath.Join(tmp, "overlay.json")
+	os.WriteFile(ovFile, ov, 0o644)
+	ctx, cancel := context.WithTimeout(context.Background(), 20*time.Minute)
+	defer cancel()
+	cmd := exec.CommandContext(ctx, "go", "test", "-overlay", ovFile, "-vet=off", "-count=1", "-timeout", "15m", "-v", "-run", "^TestVerifBounded$", "./"+b.Pkg)
+	cmd.Dir = optRepo
+	cmd.Env = append(os.Environ(), "GOFLAGS=-mod=mod", "GOPROXY=off", "GOSUMDB=off", "GOTOOLCHAIN=local", fmt.Sprintf("VERIF_BOUND=%d", bound))
+	out, _ := cmd.CombinedOutput()
+	for _, ln := range strings.Split(string(out), "\n") {
+		if strings.HasPrefix(ln, "BOUNDED-OK") {
+			return true, fmt.Sprintf("%s (bound %d): %s", b.Desc, bound, strings.TrimPrefix(ln, "BOUNDED-OK "))
+		}
+		if strings.HasPrefix(ln, "BOUNDED-FAIL") {
+			return false, strings.TrimPrefix(ln, "BOUNDED-FAIL ")
+		}
+	}
+	return false, "bounded check did not run: " + truncate(string(out), 600)
+}
